@@ -166,6 +166,14 @@ func (s *Stream) Finished(d time.Duration) bool {
 	select {
 	case <-s.Done:
 		return true
+	default:
+	}
+	if d <= 0 {
+		return false
+	}
+	select {
+	case <-s.Done:
+		return true
 	case <-time.After(d):
 		return false
 	}
